@@ -511,7 +511,7 @@ func signature(j *job, culprit int, vi int, kind string) string {
 			if culprit > 0 {
 				prev = j.cases[culprit-1].sigShape()
 			}
-			s := fmt.Sprintf("%s [interplay: pattern %s is correct alone, wrong as case %d after %s; ctx=%s]", kind, p.sigShape(), culprit+1, prev, ctxName[j.ctx])
+			s := fmt.Sprintf("%s [interplay: the pattern is correct alone but wrong as case %d after a case of shape %s; ctx=%s]", kind, culprit+1, prev, ctxName[j.ctx])
 			sigMemo[key] = s
 			return s
 		}
@@ -933,13 +933,13 @@ func run(c *engine.Ctx) {
 			doCase("single/"+gid, func(r *engine.R) {
 				var jobs []*job
 				for _, p := range ch {
-					jobs = append(jobs, mkJob(cSwitchElse, anyTyping, g.id, p), mkJob(cSwitchCatchAll, anyTyping, g.id, p), mkJob(cMatchIf, anyTyping, g.id, p))
-					if p.F == fAs {
-						continue // `var p as x = v` is not in the grammar of declarations
-					}
 					if !admissible(p, nil, nil) {
 						r.Count("statically_inadmissible_skipped", 1)
 						continue
+					}
+					jobs = append(jobs, mkJob(cSwitchElse, anyTyping, g.id, p), mkJob(cSwitchCatchAll, anyTyping, g.id, p), mkJob(cMatchIf, anyTyping, g.id, p))
+					if p.F == fAs {
+						continue // `var p as x = v` is not in the grammar of declarations
 					}
 					if declares(p) && p.F != fAs {
 						// declarations must declare something
@@ -953,13 +953,18 @@ func run(c *engine.Ctx) {
 					}
 				}
 				evalJobs(r, jobs, nil)
-				r.Sample(jobs[len(jobs)-1].describe(14))
+				if len(jobs) > 0 {
+					r.Sample(jobs[len(jobs)-1].describe(14))
+				}
 			})
 			// 2. behind each never-matching pattern (stack / scope discipline of a failed case), with differential
 			doCase("behind-never/"+gid, func(r *engine.R) {
 				diff := map[string]string{}
 				var jobs []*job
 				for _, p := range ch {
+					if !admissible(p, nil, nil) {
+						continue
+					}
 					b := mkJob(cSwitchElse, anyTyping, g.id, p)
 					b.aux = true
 					jobs = append(jobs, b)
